@@ -153,7 +153,111 @@ def C04(tier):
                 assumptions=NAN_ASSUME, trusted=["address projection: (as_ptr - parent base) / size_of, len, stride of the returned view"])
 
 
-PLANS = {"C15": C15, "C02": C02, "C16": C16, "C04": C04}
+QUANT_ASSUME = [
+    "values are logged as exact small integers relative to a base (2^k offset projection); Linear/Midpoint are judged within one "
+    "unit (integers) or one quantum of 2^-10 (N64) of the exact rational value",
+    "the position (N-1)q is evaluated exactly from the f64 q by integer arithmetic; where an integer or half-integer lies within the "
+    "rounding error of the documented f64 product both readings are accepted",
+]
+
+
+def quantile_models(tier, emit_types=True):
+    base = dict(W=4, Signed=True, MaxLen=3, ValueMode='"spaced"', Dens="{1, 2, 3, 4}", MaxReq=q(tier, 1, 2),
+                Strats='{"lower", "higher", "nearest", "midpoint", "linear"}', AllowF6=True, Emit=False)
+    inv = ["SearchedOK", "OutcomeOK", "ValuesOK", "BulkEqSingle"]
+    ms = [
+        dict(module="Quantile", name="MC_Quantile_signed", cfg=dict(constants=dict(base), invariants=inv, properties=["Terminates"])),
+        dict(module="Quantile", name="MC_Quantile_unsigned", cfg=dict(constants=dict(base, Signed=False), invariants=inv, properties=["Terminates"])),
+        dict(module="Quantile", name="MC_Quantile_full4bit",
+             cfg=dict(constants=dict(base, ValueMode='"full"', MaxLen=2, MaxReq=1, Dens="{1, 2, 3, 4, 5, 8}"), invariants=inv)),
+        dict(module="Quantile", name="MC_Quantile_emit", emit=True,
+             cfg=dict(constants=dict(base, MaxLen=q(tier, 3, 4), MaxReq=1, Dens="{1, 2, 3, 4, 8}", Emit=True), invariants=["ValuesOK", "EmitInv"])),
+    ]
+    return ms
+
+
+def quant_nontrivial(o):
+    if o.get("ev") == "qlaws":
+        return o.get("n", 0) >= 2
+    return any(len(l) >= 2 for l in o.get("lanes", []))
+
+
+def C01(tier):
+    stages = [
+        dict(name="replay_model", family="quant", trace="Trace_Quant", profile="dev", cases_from=["MC_Quantile_emit"],
+             params={"types": "i8/i64/n64/u8"}),
+        dict(name="random_dev", family="quant", trace="Trace_Quant", profile="dev", gen=dict(count=(4000, 40000))),
+        dict(name="random_release", family="quant", trace="Trace_Quant", profile="release", gen=dict(count=(1500, 15000))),
+    ]
+    return dict(models=quantile_models(tier), stages=stages, nontrivial=quant_nontrivial, exhaustive=True,
+                rule="every (lane over the spaced 4-bit value set, request, strategy) behaviour of MC_Quantile_emit replayed on i8 (as is and "
+                     "scaled by 16, reversed stepped view), u8, i64, N64; randomized 1..3-D views (C/F, sliced, stepped, reversed, permuted), every "
+                     "axis, i8/u8 over their full range, i32/i64/u64 with 2^k offsets, N64 grids, q = a/b with 0, +-1, +-4, +-2^20, +-2^30 ulp offsets "
+                     "aimed at integral and half-integral positions, all five strategies, single/bulk and 1-D/axis APIs, scripted and policy pivots; "
+                     "non-trivial = some lane has >= 2 elements",
+                assumptions=QUANT_ASSUME, trusted=["exact position projection qinfo() (u128 integer arithmetic on the bits of q)"])
+
+
+def C18(tier):
+    stages = [
+        dict(name="pairs_model", family="quant", trace="Trace_Quant", profile="dev", cases_from=["MC_Quantile_emit"],
+             params={"types": "i8/i64/n64", "pair": "1"}),
+        dict(name="pairs_random", family="quant", trace="Trace_Quant", profile="dev",
+             gen=dict(count=(2500, 25000), params={"pair": "1"})),
+        dict(name="select_pairs", family="sort", trace="Trace_Sort", trace_constants=FIX, profile="dev",
+             gen=dict(count=(2500, 25000), params={"kinds": "bulkpair", "oor_den": "0"})),
+    ]
+    return dict(models=[quantile_models(tier)[k] for k in (0, 1, 3)] + [
+                    dict(module="Bulk", name="MC_Bulk_vs_single",
+                         cfg=dict(constants=dict(FIX, N=q(tier, 4, 5), NMin=1, MaxReq=2, OutOfRange=False, DebugAssertions=True, Emit=False),
+                                  invariants=["DoneOK"], view="view"))],
+                stages=stages, nontrivial=quant_nontrivial, exhaustive=False,
+                rule="paired calls on clones of the same input: quantiles_axis_mut / quantiles_mut vs quantile_axis_mut / quantile_mut for each q "
+                     "(request lists up to 12 long with repeats, every strategy/axis/layout), get_many_from_sorted_mut vs get_from_sorted_mut for "
+                     "each index; non-trivial = some lane has >= 2 elements",
+                assumptions=QUANT_ASSUME, trusted=[])
+
+
+def C19(tier):
+    stages = [
+        dict(name="laws_random", family="quant", trace="Trace_Quant", profile="dev",
+             gen=dict(count=(2500, 25000), params={"kinds": "qlaws"})),
+    ]
+    return dict(models=quantile_models(tier)[:3], stages=stages, nontrivial=quant_nontrivial, exhaustive=False,
+                rule="groups of calls on one lane: all five strategies x an ascending q grid (every k/(N-1) and every half-way point with "
+                     "0, +-1, +-4, +-2^20 ulp offsets, plus random a/b), on the lane, on a random permutation and on a strictly increasing "
+                     "relabelling; relations checked in doubled-rank space, no value oracle; non-trivial = lane of >= 2 elements",
+                assumptions=QUANT_ASSUME[1:], trusted=["doubled-rank projection"])
+
+
+def C03(tier):
+    stages = [
+        dict(name="sort_frame", family="sort", trace="Trace_Sort", trace_constants=FIX, profile="dev",
+             gen=dict(count=(3000, 30000), params={"oor_den": "6"}), params={"frame": "1"}),
+        dict(name="sort_frame_model", family="sort", trace="Trace_Sort", trace_constants=FIX, profile="dev",
+             cases_from=["MC_Select_emit", "MC_Partition_emit"], params={"frame": "1", "strides": "2/-3"}),
+        dict(name="quantile_frame", family="quant", trace="Trace_Quant", profile="dev", gen=dict(count=(2500, 25000))),
+        dict(name="nan_frame", family="nan", trace="Trace_Nan", trace_constants=FIX3, profile="dev", gen=dict(count=(2500, 25000))),
+    ]
+    models = [
+        dict(module="Partition", name="MC_Partition",
+             cfg=dict(constants=dict(FIX, N=q(tier, 5, 6), NMin=0, OutOfRange=True, Emit=False), invariants=["BagInv", "CursorInv"])),
+        dict(module="RemoveNan", name="MC_RemoveNan",
+             cfg=dict(constants=dict(FIX3, MaxLen=q(tier, 5, 7), MaxStride=3, Offsets="{0, 2}", Kinds='{"float", "option"}', Emit=False),
+                      invariants=["CursorInv", "FrameInv"])),
+        dict(module="Select", name="MC_Select_emit", emit=True,
+             cfg=dict(constants=dict(FIX, N=q(tier, 4, 5), NMin=1, OutOfRange=False, Emit=True), invariants=["BagInv", "EmitInv"])),
+        dict(module="Partition", name="MC_Partition_emit", emit=True,
+             cfg=dict(constants=dict(FIX, N=q(tier, 4, 5), NMin=1, OutOfRange=False, Emit=True), invariants=["BagInv", "EmitInv"])),
+    ]
+    return dict(models=models, stages=stages, nontrivial=lambda o: True, exhaustive=False,
+                rule="parent buffer recorded before and after every mutating routine (partition, single and bulk selection incl. panicking "
+                     "out-of-range calls, all quantile APIs, remove_nan_mut and map_axis_skipnan_mut) on views with offset, step, reversal and "
+                     "permuted axes; TLC checks per-lane multiset preservation and that every cell outside the view is unchanged",
+                assumptions=SORT_ASSUME[:1] + NAN_ASSUME[:1], trusted=["address projection of views ((as_ptr - base)/size, shape, strides as reported by ndarray)"])
+
+
+PLANS = {"C15": C15, "C02": C02, "C16": C16, "C04": C04, "C01": C01, "C18": C18, "C19": C19, "C03": C03}
 
 HOOK_COMMITS = ["6df096f"]
 
